@@ -461,6 +461,7 @@ func (s *LinearState) FindCachedRules(ctx *Context, event Map) (map[string]*Rule
 				Log(ERROR, ctx, "LinearState.FindCachedRules", "name", s.Name, "id", id, "error", err)
 				continue
 			}
+			rule.Id = id
 			acc[id] = rule
 			s.cachedRules[id] = rule
 		}
